@@ -1,6 +1,6 @@
 """C03 — hdk::derive against Model/Bip32.v (BIP-32 CKDpriv), with an independent Python BIP-32 as third opinion."""
 from coqrun import coq_list, ni, pb
-from gen import pyref
+from gen import prims, pyref
 from gen.util import lib_vs_model, rbytes, short
 
 NEEDS = dict(cli=True, harness=True, shim=False, release=False)
@@ -39,6 +39,7 @@ def comps_of(text):
 
 def run(ctx):
     rng = ctx.rng
+    prims.check(ctx, ['hmac512', 'pubkey'])
     thorough = ctx.tier == "thorough"
     cases = []  # (seed, comps, cls, expected key or None)
     for s, p, k in VECTORS:
